@@ -256,11 +256,18 @@ static void body(Ctx& C)
       }
       // the non-node artifacts: units and modules through their interfaces
       {
-         ForkCase fc; fc.label = "units-and-modules";
+         ForkCase fc; fc.label = "units-modules-captures";
          fc.run = [&S, &unit](CaseOut& out) {
             Out o; o.out = &out; o.state = "Translation_unit / Module"; o.cls = "Translation_unit";
             sweep_object(o, static_cast<const ipr::Translation_unit&>(unit), 2, "Translation_unit.");
             for (auto& m : S.modules) { sweep_object(o, static_cast<const ipr::Module&>(m), 3, "Module."); }
+            // the capture specifications of the stand-alone factory, each through its interface class
+            for (auto p : S.default_captures) sweep_object(o, *p, 2, "Capture_specification::Default.");
+            for (auto p : S.object_captures) sweep_object(o, *p, 2, "Capture_specification::Implicit_object.");
+            for (auto p : S.local_captures) { sweep_object(o, *p, 2, "Capture_specification::Enclosing_local."); sweep_object(o, static_cast<const ipr::Capture_specification::Named&>(*p), 2, "Capture_specification::Named."); }
+            for (auto p : S.binding_captures) { sweep_object(o, *p, 2, "Capture_specification::Binding."); sweep_object(o, static_cast<const ipr::Capture_specification::Named&>(*p), 2, "Capture_specification::Named."); }
+            for (auto p : S.expansion_captures) sweep_object(o, *p, 2, "Capture_specification::Expansion.");
+            out.count("capture_specifications_swept", (long long)(S.default_captures.size() + S.object_captures.size() + S.local_captures.size() + S.binding_captures.size() + S.expansion_captures.size()));
             out.count("accessor_calls", o.calls); out.count("calls_returning_a_value", o.values); out.count("calls_refused_with_logic_error", o.refusals); out.count("sequences_checked", o.sequences);
             out.count("out_of_range_probes", o.out_of_range);
             for (auto& [k, v] : o.per_accessor) out.eval(hash_bytes(k));
@@ -276,7 +283,7 @@ static void body(Ctx& C)
    VH_LEAF_CATEGORIES(VH_X)
 #undef VH_X
    if (!missing.empty()) C.inconclusive("leaf interface classes never swept: " + missing);
-   for (auto k : { "accessor_calls", "calls_returning_a_value", "calls_refused_with_logic_error", "sequences_checked", "out_of_range_probes", "optionals_empty", "optionals_set", "keyed_lookups", "cases_completed" }) C.need(k);
+   for (auto k : { "accessor_calls", "calls_returning_a_value", "calls_refused_with_logic_error", "sequences_checked", "out_of_range_probes", "optionals_empty", "optionals_set", "keyed_lookups", "cases_completed", "capture_specifications_swept" }) C.need(k);
 }
 
 int main(int argc, char** argv) { return guarded_main(argc, argv, body); }
